@@ -86,6 +86,9 @@ def c10(ctx):
     ctx.model(MC, "MC_Sched_C10.cfg")
     ctx.sim("loop", 300 if q else 8000, LOOP, "MonLoop_C10.cfg", nontrivial=has_genuine)
     ctx.sim("sched", 100 if q else 2000, LOOP, "MonLoop_C10.cfg", seed_off=1, nontrivial=has_genuine)
+    # probes that failed to send are probes too (the lowest ttl ever probed); route changes to a path of another length
+    ctx.sim("fault", 150 if q else 3000, LOOP, "MonLoop_C10.cfg", seed_off=2, nontrivial=has_fault)
+    ctx.sim("grow", 60 if q else 1500, LOOP, "MonLoop_C10.cfg", seed_off=3, nontrivial=has_genuine)
     ctx.write_evidence("model_checking", MODEL_RULE + "distinct (family, cell, shape) of scenarios with >= 1 genuine response", assumptions=LOOP_ASSUME)
 
 
